@@ -99,17 +99,18 @@ theorem respell_default (d0 : Char) (dr : List Char) (e0 : Char) (er : List Char
     (hd0 : wsChar d0 = false) (hel : ∀ w c, (e0 :: er) = w ++ [c] → wsChar c = false)
     (hd0' : wsChar d0' = false) (hel' : ∀ w c, (e0' :: er') = w ++ [c] → wsChar c = false)
     (ps : List Piece)
-    (hfree : ∀ p ∈ ps, p.free ((d0 :: dr) ++ (e0 :: er)) ∧ p.free ((d0' :: dr') ++ (e0' :: er')))
+    (hfree : ∀ p ∈ ps, p.fits d0 e0 (d0 :: dr) (e0 :: er) ∧ p.fits d0' e0' (d0' :: dr') (e0' :: er'))
     (cfg : Cfg) (out out' : List Char)
     (hnu : NoReadyUnwrap cfg (parseSource (renderAll (d0 :: dr) (e0 :: er) ps) (d0 :: dr) (e0 :: er)))
     (h : clean (renderAll (d0 :: dr) (e0 :: er) ps) (d0 :: dr) (e0 :: er) cfg = .ok out)
     (h' : clean (renderAll (d0' :: dr') (e0' :: er') ps) (d0' :: dr') (e0' :: er') cfg = .ok out') :
     ∃ qs qs', out = renderAll (d0 :: dr) (e0 :: er) qs ∧ out' = renderAll (d0' :: dr') (e0' :: er') qs' ∧
       PiecesWs qs qs' := by
-  have hok : ∀ p ∈ ps, p.ok d0 e0 := fun p hp => ok_of_free d0 dr e0 er p (hfree p hp).1
-  have hok' : ∀ p ∈ ps, p.ok d0' e0' := fun p hp => ok_of_free d0' dr' e0' er' p (hfree p hp).2
+  have hok : ∀ p ∈ ps, p.ok d0 e0 := fun p hp => Piece.ok_of_fits _ _ _ _ p (hfree p hp).1
+  have hok' : ∀ p ∈ ps, p.ok d0' e0' := fun p hp => Piece.ok_of_fits _ _ _ _ p (hfree p hp).2
   -- the tokens, and hence the forests, correspond
-  have hT := tokXs_of_tnorm (d0 :: dr) (e0 :: er) (d0' :: dr') (e0' :: er') ps [] _ _ hfree
+  have hT := tokXs_of_tnorm (d0 :: dr) (e0 :: er) (d0' :: dr') (e0' :: er') ps [] _ _
+    (fun p hp => ⟨Piece.strip_of_fits _ _ _ _ p (hfree p hp).1, Piece.strip_of_fits _ _ _ _ p (hfree p hp).2⟩)
     (tokens_tnorm d0 dr e0 er ps hok) (tokens_tnorm d0' dr' e0' er' ps hok')
   have hG := parse_x (d0 :: dr) (e0 :: er) (d0' :: dr') (e0' :: er') (fun _ _ => True) (by simp) (by simp) (by simp) (by simp) _ _ hT
   have hnu' : NoReadyUnwrap cfg
@@ -211,20 +212,21 @@ theorem list_lines_respelled (d0 : Char) (dr : List Char) (e0 : Char) (er : List
     (d0' : Char) (dr' : List Char) (e0' : Char) (er' : List Char)
     (hnl : ∀ c ∈ (d0 :: dr) ++ (e0 :: er), c ≠ '\n') (hnl' : ∀ c ∈ (d0' :: dr') ++ (e0' :: er'), c ≠ '\n')
     (ps : List Piece)
-    (hfree : ∀ p ∈ ps, p.free ((d0 :: dr) ++ (e0 :: er)) ∧ p.free ((d0' :: dr') ++ (e0' :: er')))
+    (hfree : ∀ p ∈ ps, p.fits d0 e0 (d0 :: dr) (e0 :: er) ∧ p.fits d0' e0' (d0' :: dr') (e0' :: er'))
     (cfg : Cfg)
     (hnu : NoUnwrapAttr (parseSource (renderAll (d0 :: dr) (e0 :: er) ps) (d0 :: dr) (e0 :: er))) :
     (listMarkers (renderAll (d0 :: dr) (e0 :: er) ps) (d0 :: dr) (e0 :: er) cfg).map
         (fun x => lineRangeOf (bytesOf (renderAll (d0 :: dr) (e0 :: er) ps)) (x.1.start, x.1.stop)) =
     (listMarkers (renderAll (d0' :: dr') (e0' :: er') ps) (d0' :: dr') (e0' :: er') cfg).map
         (fun x => lineRangeOf (bytesOf (renderAll (d0' :: dr') (e0' :: er') ps)) (x.1.start, x.1.stop)) := by
-  have hok : ∀ p ∈ ps, p.ok d0 e0 := fun p hp => ok_of_free d0 dr e0 er p (hfree p hp).1
-  have hok' : ∀ p ∈ ps, p.ok d0' e0' := fun p hp => ok_of_free d0' dr' e0' er' p (hfree p hp).2
+  have hok : ∀ p ∈ ps, p.ok d0 e0 := fun p hp => Piece.ok_of_fits _ _ _ _ p (hfree p hp).1
+  have hok' : ∀ p ∈ ps, p.ok d0' e0' := fun p hp => Piece.ok_of_fits _ _ _ _ p (hfree p hp).2
   generalize hsrc : renderAll (d0 :: dr) (e0 :: er) ps = src at hnu
   generalize hsrc' : renderAll (d0' :: dr') (e0' :: er') ps = src'
   obtain ⟨tk, _⟩ := tokenize_ok src (d0 :: dr) (e0 :: er) (by simp)
   obtain ⟨tk', _⟩ := tokenize_ok src' (d0' :: dr') (e0' :: er') (by simp)
-  have hT := tokXs_of_tnorm (d0 :: dr) (e0 :: er) (d0' :: dr') (e0' :: er') ps [] _ _ hfree
+  have hT := tokXs_of_tnorm (d0 :: dr) (e0 :: er) (d0' :: dr') (e0' :: er') ps [] _ _
+    (fun p hp => ⟨Piece.strip_of_fits _ _ _ _ p (hfree p hp).1, Piece.strip_of_fits _ _ _ _ p (hfree p hp).2⟩)
     (tokens_tnorm d0 dr e0 er ps hok) (tokens_tnorm d0' dr' e0' er' ps hok')
   rw [hsrc, hsrc'] at hT
   -- the line counts agree token by token
@@ -284,14 +286,15 @@ theorem frB_sound (cs : List Char) (p : Piece) (h : frB cs p = true) : p.free cs
     have := h c hc
     simp [hm] at this
 
-example : (∀ p ∈ exPs2, p.free ("<".toList ++ ">".toList) ∧ p.free ("[%".toList ++ "%]".toList)) ∧
+example : (∀ p ∈ exPs2, p.fits '<' '>' "<".toList ">".toList ∧ p.fits '[' '%' "[%".toList "%]".toList) ∧
     outIs (clean (renderAll "<".toList ">".toList exPs2) "<".toList ">".toList exC2) "a\nm\n\nz\n" = true ∧
     outIs (clean (renderAll "[%".toList "%]".toList exPs2) "[%".toList "%]".toList exC2) "a\nm\n\nz\n" = true := by
   refine ⟨?_, by decide +kernel, by decide +kernel⟩
   intro p hp
   have h1 : exPs2.all (frB ("<".toList ++ ">".toList)) = true := by decide +kernel
   have h2 : exPs2.all (frB ("[%".toList ++ "%]".toList)) = true := by decide +kernel
-  exact ⟨frB_sound _ p (List.all_eq_true.mp h1 p hp), frB_sound _ p (List.all_eq_true.mp h2 p hp)⟩
+  exact ⟨Piece.fits_of_free '<' [] '>' [] p (frB_sound _ p (List.all_eq_true.mp h1 p hp)),
+    Piece.fits_of_free '[' ['%'] '%' [']'] p (frB_sound _ p (List.all_eq_true.mp h2 p hp))⟩
 
 theorem noUnwrapAttr_of_all (parts : List Part)
     (h : (elementsOf parts).all (fun e => !hasAttr e.1 "unwrap-block") = true) : NoUnwrapAttr parts := by
